@@ -499,6 +499,11 @@ def life_scenarios(tier):
                 sc = scenario("multi", [s0, s1], "life2x-%s-v%d-s%d-%s" % (container, victim, slow, fk), maxMs=900,
                               faults=[{"req": -1, "kind": fk, "on": "seg", "s": victim, "nth": 0}])
                 scs.append(sc)
+    # a stream that declares a track the client has no decoder for (legal on the wire): the supported tracks play to the end
+    for trs in ([H264, {"codec": "lpcm", "scale": 48000, "rate": 48000}, aac(48000, 48000)], [{"codec": "ac3", "scale": 48000, "rate": 48000}, H264]):
+        st = stream("fmp4", trs, [ver(0, 3, True, "VOD")], [900000 if t["codec"] == "h264" else 480000 for t in trs],
+                    [1800 if t["codec"] == "h264" else 960 for t in trs], 2)
+        scs.append(scenario("media", [st], "life-unsup-%s" % "+".join(t["codec"] for t in trs), maxMs=2500))
     # long segments: the hand-off of samples to the track processors (a queue of 100 entries in MPEG-TS, a rendezvous in fMP4) is
     # blocked while a sample is being paced; Close / an error of another track must still end the client (pushNoCtx in the model)
     for container in ("ts", "fmp4"):
